@@ -234,6 +234,7 @@ Definition now_val (f : fdesc) (now : Z) : goval :=
       if (fd_ctime f =? 4) || (fd_utime f =? 4) then GInt now
       else if (fd_ctime f =? 3) || (fd_utime f =? 3) then GInt (now / 1000000)
       else GInt (now / giga)
+  | KPtr _ => GSome (GOpq now)      (* a nil *time.Time is pointed at a fresh time value *)
   | _ => GOpq now
   end.
 
@@ -368,6 +369,8 @@ Fixpoint chunks {A} (fuel : nat) (n : nat) (l : list A) : list (list A) :=
   | S fuel' => match l with [] => [] | _ => firstn n l :: chunks fuel' n (skipn n l) end
   end.
 
+Definition clock_step : Z := 1001001001.
+
 Fixpoint create_seq (fs : list fdesc) (now : Z) (returning reversed : bool) (prio : string) (prio_hasdef : bool)
          (is_struct : bool) (base : Z) (stmts : list (list (list goval)))
   : option (list (list goval) * list (list dbval)) :=
@@ -377,7 +380,9 @@ Fixpoint create_seq (fs : list fdesc) (now : Z) (returning reversed : bool) (pri
       match create_stmt fs now returning reversed prio prio_hasdef is_struct base s with
       | None => None
       | Some (a, rows, base') =>
-          match create_seq fs now returning reversed prio prio_hasdef is_struct base' rest with
+          (* every Create statement reads the clock once (NowFunc); the harness clock advances by
+             [clock_step] per reading *)
+          match create_seq fs (now + clock_step) returning reversed prio prio_hasdef is_struct base' rest with
           | None => None
           | Some (a', rows') => Some (a ++ a', rows ++ rows')
           end
